@@ -5,8 +5,10 @@ import (
 	"fmt"
 	"os"
 	"path/filepath"
+	"runtime"
 	"sort"
 	"strings"
+	"sync/atomic"
 	"time"
 
 	"github.com/RoaringBitmap/roaring"
@@ -201,6 +203,9 @@ func buildIndexFileInner(kind string, rows []map[string]string, path string) (id
 	return nil, fmt.Errorf("unknown writer %q", kind)
 }
 
+var openCounter atomic.Int64
+var procsPinned atomic.Bool // set while a caller controls GOMAXPROCS itself
+
 func openIdx(path string, preload bool, cache int64) (*updog.Index, *updog.LRUCache, error) {
 	var opts []updog.IndexOption
 	var lru *updog.LRUCache
@@ -222,6 +227,13 @@ func openIdx(path string, preload bool, cache int64) (*updog.Index, *updog.LRUCa
 				ch <- res{nil, fmt.Errorf("panic: %v", r)}
 			}
 		}()
+		// the index must not depend on how many CPUs the opening process happened to have: every few opens run under
+		// another GOMAXPROCS setting (restored as soon as OpenIndex has returned)
+		n := openCounter.Add(1)
+		if procs := []int{0, 0, 3, 0, 1, 0, 6, 0}[n%8]; procs > 0 && !procsPinned.Load() {
+			old := runtime.GOMAXPROCS(procs)
+			defer runtime.GOMAXPROCS(old)
+		}
 		idx, err := updog.OpenIndex(path, opts...)
 		ch <- res{idx, err}
 	}()
@@ -361,6 +373,11 @@ func runIdxCase(o *Oracle, c *IdxCase, rep *Report, fl idxFlags) {
 
 	if c.StaleTmp {
 		old := []map[string]string{{"kind": "legacy", "host": "h9"}, {"kind": "legacy"}, {"host": "h9", "a": "1"}}
+		if len(rows) > 1 {
+			// the same (column,value) pairs under other row ids, and a few rows more: anything that leaks from the
+			// leftover file changes counts of the new index
+			old = append(append([]map[string]string{}, rows[1:]...), rows[0], rows[0], rows[len(rows)/2])
+		}
 		os.Remove(path + ".tmp")
 		buildIndexFile("mem", old, path+".tmp")
 		defer os.Remove(path + ".tmp")
@@ -506,6 +523,19 @@ func runIdxCase(o *Oracle, c *IdxCase, rep *Report, fl idxFlags) {
 			safeExecute(other, uq)
 			rep.Count("cross-index-executions")
 		}
+		if fl.prop == "C08" && qi%3 == 2 {
+			// the caller executes the Query value while its expression is still incomplete (rejected), completes the
+			// expression in place and executes the same value again: the earlier rejection must leave nothing behind
+			if restore := breakExpr(uq.Expr); restore != nil {
+				r1 := safeExecute(idx, uq)
+				r2 := safeExecute(idx, uq)
+				rep.Count("incomplete-then-completed")
+				if r1 != r2 {
+					viol("history", "C08:reexecute-mismatch", fmt.Sprintf("the incomplete Query value (%s with an operand missing) is rejected differently the second time", toks), r1, r2)
+				}
+				restore()
+			}
+		}
 		got := safeExecute(idx, uq)
 		want := o.Ask("idx q " + toks)
 		nontrivial := strings.HasPrefix(want, "ok") && !strings.HasPrefix(want, "ok 0") && q.E.Size() > 1
@@ -585,6 +615,47 @@ func runIdxCase(o *Oracle, c *IdxCase, rep *Report, fl idxFlags) {
 			}
 		}
 	}
+}
+
+// breakExpr removes one operand somewhere below the root (the last operand of the first AND/OR that has one, or the
+// operand of a NOT) and returns the function that puts it back in place; nil when the expression is a single leaf.
+func breakExpr(e updog.Expression) (restore func()) {
+	switch x := e.(type) {
+	case *updog.ExprNot:
+		if r := breakExpr(x.Expr); r != nil {
+			return r
+		}
+		old := x.Expr
+		x.Expr = nil
+		return func() { x.Expr = old }
+	case *updog.ExprAnd:
+		if len(x.Exprs) == 0 {
+			return nil
+		}
+		for _, k := range x.Exprs {
+			if r := breakExpr(k); r != nil {
+				return r
+			}
+		}
+		i := len(x.Exprs) - 1
+		old := x.Exprs[i]
+		x.Exprs[i] = nil
+		return func() { x.Exprs[i] = old }
+	case *updog.ExprOr:
+		if len(x.Exprs) == 0 {
+			return nil
+		}
+		for _, k := range x.Exprs {
+			if r := breakExpr(k); r != nil {
+				return r
+			}
+		}
+		i := len(x.Exprs) - 1
+		old := x.Exprs[i]
+		x.Exprs[i] = nil
+		return func() { x.Exprs[i] = old }
+	}
+	return nil
 }
 
 // recCache is an unbounded map cache that logs every call (same format as the oracle's logging cache).
